@@ -79,6 +79,17 @@ func cmdVerify(args []string) {
 		os.MkdirAll(dir, 0o755)
 	}
 	total, proved := 0, 0
+	if len(fs.Args()) == 0 || *only == "lemma" {
+		lo := p.lemmaObligations()
+		p.dischargeAll(lo, *timeout, dir, 8)
+		for _, o := range lo {
+			fmt.Printf("   [%s] %-8s %s (%s %.2fs)\n", verdictMark(o.Verdict), o.Verdict, o.Name, o.Solver, o.Secs)
+			total++
+			if o.Verdict == "unsat" {
+				proved++
+			}
+		}
+	}
 	for _, n := range names {
 		if _, ok := p.funcs[n]; !ok {
 			fmt.Printf("!! no such function %s\n", n)
